@@ -92,23 +92,30 @@ func (*PDM) RIm()                {}
 func (*PDM) Primary()            {}
 func (*PDM) Mark()               {}
 
-// the holder's points: three positions x five kinds
+// the holder's points: three positions x seven kinds (b, c: ARRAY-typed points, which the collectors do not serve: they
+// stay as they are, a required one fails start-up)
 type hfields struct {
 	F1i RI
 	F1s []RI
 	F1p *PB
 	F1q []*PB
 	F1a any
+	F1b [2]RI
+	F1c [1]*PB
 	F2i RI
 	F2s []RI
 	F2p *PB
 	F2q []*PB
 	F2a any
+	F2b [2]RI
+	F2c [1]*PB
 	F3i RI
 	F3s []RI
 	F3p *PB
 	F3q []*PB
 	F3a any
+	F3b [2]RI
+	F3c [1]*PB
 }
 type HN struct { // 9 plain holder
 	rbase
@@ -192,7 +199,13 @@ type RScenario struct {
 	Reg   []int    `json:"reg"`   // registration order
 	Split bool     `json:"split"` // wire even positions through a second tag-scan processor (varies the property order)
 	Seed  int64    `json:"seed"`  // permutation of the singleton registry's name enumeration
+	Preset bool    `json:"preset"` // every point's field holds a sentinel (pid 99, not a registered component) before the start
 }
+
+// the sentinel a preset field holds before the start: never registered, so it can only survive, never be injected
+type PSent struct{ rbase }
+
+func (*PSent) RIm() {}
 
 type robs struct {
 	processors.DefaultInstantiationAwareComponentPostProcessor
@@ -293,7 +306,7 @@ func runResolve(sc *RScenario) []map[string]any {
 		prio[regName[id-1]] = i
 	}
 	holderName := regName[0]
-	suffix := map[string]string{"iface": "i", "siface": "s", "ptr": "p", "sptr": "q", "any": "a"}
+	suffix := map[string]string{"iface": "i", "siface": "s", "ptr": "p", "sptr": "q", "any": "a", "aiface": "b", "aptr": "c"}
 	fields := []string{}
 	tab := map[string][2]string{}
 	tab2 := map[string][2]string{}
@@ -348,6 +361,29 @@ func runResolve(sc *RScenario) []map[string]any {
 		}
 		return w
 	}
+	if sc.Preset {
+		hv0 := reflect.ValueOf(comps[0]).Elem().FieldByName("hfields")
+		sent, sentPB := &PSent{rbase{99, "sentinel", ""}}, &PB{rbase{99, "sentinel", ""}}
+		for _, fn := range fields {
+			fv := hv0.FieldByName(fn)
+			switch fn[len(fn)-1] {
+			case 'i':
+				fv.Set(reflect.ValueOf(RI(sent)))
+			case 'a':
+				fv.Set(reflect.ValueOf(sent))
+			case 'p':
+				fv.Set(reflect.ValueOf(sentPB))
+			case 's':
+				fv.Set(reflect.ValueOf([]RI{sent}))
+			case 'q':
+				fv.Set(reflect.ValueOf([]*PB{sentPB}))
+			case 'b':
+				fv.Index(0).Set(reflect.ValueOf(RI(sent)))
+			case 'c':
+				fv.Index(0).Set(reflect.ValueOf(sentPB))
+			}
+		}
+	}
 	w, w2 := mkWire("zz-rwire-a", tab), mkWire("zz-rwire-b", tab2)
 	o1 := &robs{order: 3, holder: holderName, stage: "collected", log: &log, names: names, fields: fields}
 	o2 := &robs{order: 5, holder: holderName, stage: "filtered", log: &log, names: names, fields: fields}
@@ -381,6 +417,12 @@ func runResolve(sc *RScenario) []map[string]any {
 		case reflect.Slice:
 			for j := 0; j < fv.Len(); j++ {
 				res[i] = append(res[i], pidOf(fv.Index(j).Interface()))
+			}
+		case reflect.Array:
+			for j := 0; j < fv.Len(); j++ {
+				if !fv.Index(j).IsNil() {
+					res[i] = append(res[i], pidOf(fv.Index(j).Interface()))
+				}
 			}
 		default:
 			if !fv.IsNil() {
